@@ -80,7 +80,7 @@ impl Minimums {
 impl<K, V> RecursiveContext<K, V>
 where
     K: Hash + Eq + Debug + Clone,
-    V: Debug + Clone,
+    V: Debug + Clone + PartialEq,
 {
     pub fn new(overflow_depth: usize, max_size: usize, cache: Option<Cache<K, V>>) -> Self {
         RecursiveContext {
@@ -267,6 +267,12 @@ where
                 std::mem::replace(&mut self.search_graph[dfn].solution, current_answer);
 
             if solver_stuff.reached_fixed_point(&old_answer, &self.search_graph[dfn].solution) {
+                if old_answer != self.search_graph[dfn].solution {
+                    // We stop although the answer still changed (e.g. because it became
+                    // ambiguous). The nodes below were computed against the previous
+                    // answer, so they must not survive (and eventually be cached).
+                    self.search_graph.rollback_to(dfn + 1);
+                }
                 return *minimums;
             }
 
